@@ -660,8 +660,8 @@ impl DB {
             }
         }
 
-        drop(db_lock);
-
+        // Remove the lock file while the lock is still held. If the lock were released first, an
+        // open could acquire it in between and would then have its lock file removed from under it.
         log::info!("Deleting database lock file.");
         if let Err(io_err) = fs.remove_file(&file_name_handler.get_lock_file_path()) {
             log::error!(
@@ -671,6 +671,8 @@ impl DB {
 
             return Err(RainDBError::Destruction(io_err.to_string()));
         }
+
+        drop(db_lock);
 
         if let Some(deletion_err) = maybe_deletion_err {
             return Err(RainDBError::Destruction(deletion_err.to_string()));
